@@ -42,6 +42,8 @@ impl AssetMap {
                 32
             }
         };
+        #[cfg(assets_manager_verif)]
+        let shards = detsim::knob_shards().unwrap_or(shards);
 
         let hash_builder = RandomState::new();
         let shards = (0..shards)
